@@ -3,7 +3,7 @@ import vlib
 from vlib import Violation, qc, qc_mat, qc_vec, coq_list
 
 ID = "C02"
-GEN_UNITS = ["GridT", "GridCtor"]
+GEN_UNITS = ["GridT", "GridCtor", "SitkGrid"]
 PROPS_FILE = "Props/C02.v"
 PROPS_MOD = "Props.C02"
 COQ_TARGETS = ["Props/C02.vo", "Base/QcCmp.vo"]
@@ -55,7 +55,7 @@ def correspondence(ctx):
         dist[k] = dist.get(k, 0) + 1
     res = vlib.run_impl("c02_impl", {"fn": "model_cases", "cases": cases})
     lines = ["From Coq Require Import ZArith QArith List String.",
-             "From DV Require Import Base.Field Base.LinAlg Base.QcInst Base.QcCmp Model.Enums Model.ItkSpec Gen.GridT Gen.GridCtor.",
+             "From DV Require Import Base.Field Base.LinAlg Base.QcInst Base.QcCmp Model.Enums Model.ItkSpec Gen.GridT Gen.GridCtor Gen.SitkGrid.",
              "Import ListNotations.", "Definition tol : Q := 1 # 20000.", "Definition tol64 : Q := 1 # 1000000000."]
     names, failures = [], []
     for i, (c, r) in enumerate(zip(cases, res)):
@@ -78,7 +78,11 @@ def correspondence(ctx):
         # (d) both routes agree in the implementation; world_to_index returns the index
         t4 = f"vcloser tol {qc_vec(r['world'])} {qc_vec(r['world_center_route'])}"
         t5 = f"vcloser (1 # 2000) {x} {qc_vec(r['back'])}"
-        lines.append(f"Definition c{i} : bool := ({t1}) && ({t2}) && ({t3}) && ({t4}) && ({t5}).")
+        # (e) the SimpleITK-side GridAttrs maps (float64) == generated model on the header
+        hs, ho, hd = qc_vec(h["spacing"]), qc_vec(h["origin"]), qc_mat(h["direction"])
+        t6 = f"vcloser tol64 (gen_attrs_i2p (K:=QcF) {D} {hs} {ho} {hd} {x}) {qc_vec(r['attrs_world'])}"
+        t7 = f"vcloser (1 # 100000000) (gen_attrs_p2i (K:=QcF) {D} {hs} {ho} {hd} {qc_vec(r['attrs_world'])}) {qc_vec(r['attrs_back'])}"
+        lines.append(f"Definition c{i} : bool := ({t1}) && ({t2}) && ({t3}) && ({t4}) && ({t5}) && ({t6}) && ({t7}).")
         names.append((i, f"c{i}"))
     lines.append("Definition results : list bool := " + coq_list([nm for _, nm in names]) + ".")
     lines.append('Eval vm_compute in ("FAIL"%string, failing results).')
